@@ -81,6 +81,7 @@ type Contract struct {
 	Snapshots []Snapshot      // ghost names for the value a local variable receives at one of its assignments
 	NoVerify  bool   // body not verified and not claimed (documentation only)
 	Modifies  []string
+	Observer  bool // writes no memory that existed at entry (frame obligation decided by the provenance analysis)
 	Pure      bool
 	ArithWrap bool
 	ArithMath bool // integer +,-,* of this function are treated as mathematical (no wrap-around): an assumption, listed in the evidence
@@ -183,7 +184,7 @@ func NewSpecs() *Specs {
 var clauseKeywords = map[string]bool{
 	"specfunc": true, "lemma": true, "reveal": true, "snapshot": true, "callsite": true,
 	"pred": true, "func": true, "extern": true, "ghost": true, "ghostfield": true, "fold": true, "orbit": true, "iface": true, "walk": true, "requires": true, "ensures": true, "preserves": true, "loop": true,
-	"funcparam": true, "mapspec": true, "assumefacet": true, "readonly": true, "dyncall": true, "inline": true, "trusted": true, "verifybody": true, "depthguard": true, "atcalls": true, "recursion": true, "sharedconst": true, "opaque": true, "noverify": true, "modifies": true, "pure": true, "arith": true, "axiom": true,
+	"funcparam": true, "mapspec": true, "assumefacet": true, "readonly": true, "dyncall": true, "inline": true, "trusted": true, "verifybody": true, "depthguard": true, "atcalls": true, "recursion": true, "sharedconst": true, "opaque": true, "noverify": true, "modifies": true, "observer": true, "pure": true, "arith": true, "axiom": true,
 }
 
 // LoadSpecs reads every contracts_verif.go under repo (falling back to mirror for packages lacking one).
@@ -650,6 +651,8 @@ func (S *Specs) parseFile(path string) error {
 				}
 			case "pure":
 				cur.Pure = true
+			case "observer":
+				cur.Observer = true
 			case "arith":
 				cur.ArithWrap = strings.TrimSpace(rest) == "wrap"
 				cur.ArithMath = strings.TrimSpace(rest) == "math"
